@@ -43,9 +43,23 @@ def big_flush_script():
     return write_vectors("recv-bigflush", [{"cfg": cfg, "steps": steps}])
 
 
+def big_buffer_scripts():
+    """receivers whose window buffers a megabyte and more (windowsize x blksize): the cumulative
+    acknowledgement is due after exactly windowsize in-order blocks, whatever their total size"""
+    out = []
+    for blk, w in ((65464, 17), (16384, 65), (1468, 720), (512, 2049)):
+        steps = [{"k": "data", "n": i, "id": i, "sz": "full", "dt": 0} for i in range(1, w + 1)]
+        steps += [{"k": "data", "n": w + 1, "id": w + 1, "sz": "full", "dt": 0}, {"k": "data", "n": w + 2, "id": w + 2, "sz": "short", "dt": 0}]
+        cfg = {"role": "recv", "M": 65536, "W": w, "NB": 0, "R": 1, "T": 2, "chk": False, "clean": True, "base0": 0,
+               "lastempty": False, "devfull": False, "blk": blk, "short": blk - 3}
+        out.append({"cfg": cfg, "steps": steps})
+    return write_vectors("recv-bigbuffer", out)
+
+
 def c02(res):
     res.extra["unbounded_inductive_invariant"] = EX.receiver_inductive()
     W.run_vectors(res, big_flush_script(), "recv-bigflush", layer=W.WORKER)
+    W.run_vectors(res, big_buffer_scripts(), "recv-bigbuffer", layer=W.WORKER)
     worker_families(res, ["MC_RecvCoreQuick", "MC_RecvPrefill", "MC_RecvWrapReal"], ["MC_RecvCoreFull", "MC_RecvPrefill", "MC_RecvDup", "MC_RecvWrapRealDeep"])
     file_scenario_deviations(res, boundary_transfers(res, "upload", "c02-boundary"), "c02-boundary",
                              "upload through the real process (real socket receive path) is not a behaviour of the receiver specification")
@@ -58,6 +72,9 @@ def c07(res):
     for single in (False, True):
         tag = "c07-silent-%s" % ("single" if single else "multi")
         file_scenario_deviations(res, silent_peer_scenarios(tag, None, single=single), tag, note)
+    for single in (False, True):
+        tag = "c07-peer-error-%s" % ("single" if single else "multi")
+        file_scenario_deviations(res, peer_error_scenarios(tag, single), tag, "the transfer does not end at once when the peer sends ERROR")
     file_scenario_deviations(res, slow.join(), "c07-silent-default", note)
 
 
@@ -90,8 +107,44 @@ def c08_extras(res):
     res.extra["unbounded_inductive_invariant"] = EX.sender_inductive()
 
 
+def negotiated_window_transfers(tag):
+    """The wiring of the acknowledged windowsize into the real process (server.rs -> Worker): model
+    clients that take the window from the OACK, at windows beyond 256 and at the 16-bit boundary."""
+    events = []
+    for single in (False, True):
+        sb, srv = with_server("%s-%s" % (tag, "s" if single else "m"), shared=True, single=single, ow=True)
+        try:
+            for k, (w, nb) in enumerate(((300, 310), (65535, 40)) if not single else ((257, 600),)):
+                content = X.make_file(nb, 8, 5)
+                name = "nw_%d.bin" % k
+                open(os.path.join(sb.send, name), "wb").write(content)
+                opts = [("blksize", 8), ("windowsize", w), ("timeout", 2)]
+                d = X.Download(srv, "%s-download-w%d" % (tag, w), name.encode(), content, opts=opts)
+                u = X.Upload(srv, "%s-upload-w%d" % (tag, w), ("nw_up_%d.bin" % k).encode(), nb, 5, opts=opts,
+                             target=os.path.join(sb.recv, "nw_up_%d.bin" % k))
+                events += X.run_clients(srv, [d])
+                events += X.run_clients(srv, [u])
+        finally:
+            drop_server(sb, srv)
+    return events
+
+
 def c08(res):
     c08_extras(res)
+    W.run_vectors(res, big_buffer_scripts(), "recv-bigbuffer", layer=W.WORKER)
+    # real time: a window of 300 datagrams can overrun a socket buffer on a loaded machine, which the
+    # trace would show as a deviation; only a deviation seen in three runs out of three is reported
+    for attempt in range(3):
+        probe = C.Result(res.prop, res.tier)
+        file_scenario_deviations(probe, negotiated_window_transfers("c08-negotiated-window"), "c08-negotiated-window",
+                                 "the real process does not run the transfer with the window it acknowledged")
+        if not probe.violations:
+            break
+    res.traces += probe.traces
+    res.events += probe.events
+    res.legs += probe.legs
+    for sig, desc, rep in probe.violations:
+        res.add_violation(sig, desc, rep)
     worker_families(res, ["MC_SendCoreQuick", "MC_RecvCoreQuick", "MC_SendBigWShort", "MC_RecvBigW"],
                     ["MC_SendCoreFull", "MC_RecvCoreFull", "MC_SendBigWShort", "MC_RecvBigW", "MC_SendBigWFull"])
 
@@ -119,6 +172,8 @@ def c16(res):
     W.model_check(res, "MC_ClosedDup", module="MC_TransferClosed")
     worker_families(res, ["MC_SendDup", "MC_RecvDup"], ["MC_SendDup", "MC_RecvDup"], random_legs=False)
     c16_startup(res)
+    file_scenario_deviations(res, every_copy_downloads("c16-every-copy", res.tier == "quick"), "c16-every-copy",
+                             "with --duplicate-packets a peer that acknowledges every copy does not get a conformant transfer")
     c16_interop(res)
 
 
@@ -157,6 +212,56 @@ def c16_startup(res):
         if started != should_start:
             res.add_violation("DupStartup|%s" % v, "C16: tftpd --duplicate-packets %s %s" % (v, "started" if started else "refused to start"),
                               {"kind": "startup", "N": v})
+
+
+def every_copy_downloads(tag, q):
+    """Peers that acknowledge EVERY copy (C16): lock-step downloads with --duplicate-packets N in
+    which the model client answers each of the N+1 copies of a block at once, in both port modes
+    and at the largest N.  The worker does not read while it emits the copies of a block, and its
+    queue is first-in first-out, so it consumes: the first ACK k, [emits the copies of k+1], the
+    N stale ACK k, the first ACK k+1, ...; the trace is written in that order."""
+    events = []
+    for single, n in (((True, 254), (False, 254), (True, 2)) if q else ((True, 254), (False, 254), (True, 2), (False, 3), (True, 100))):
+        label = "%s-%s-n%d" % (tag, "s" if single else "m", n)
+        sb, srv = with_server(label, shared=True, single=single, ow=True, dup=n)
+        try:
+            content = X.make_file(4, 8, 5)
+            open(os.path.join(sb.send, "every.bin"), "wb").write(content)
+            d = X.Download(srv, label, b"every.bin", content, opts=[("blksize", 8)])
+            d.start()
+            if d.started:
+                r, copies = n + 1, {}
+                while True:
+                    got = d.pending or d.recv_some(1, quiet=1.5)
+                    d.pending = []
+                    if not got:
+                        break
+                    p = got[0]
+                    if p["k"] != "data":
+                        d.absorb([p])
+                        continue
+                    d.sock.sendto(NET.ack(p["n"]), d.peer)        # at once, every copy
+                    d.absorb([p])
+                    k = p["n"]
+                    copies[k] = copies.get(k, 0) + 1
+                    if copies[k] == r:
+                        if k > 1:
+                            for _ in range(r - 1):
+                                d.log(e="in", k="ack", n=k - 1, dt=0)
+                        d.log(e="in", k="ack", n=k, dt=0)
+                        if k == d.nb:
+                            break
+                d.log(e="quiet")
+            X.server_outcomes(srv, [d], wait=1.0)
+            events += d.events
+            d.close()
+            if not srv.alive():
+                events.append({"e": "cfg", "role": "send", "M": 65536, "W": 1, "NB": 1, "R": 1, "T": 1, "chk": False, "clean": True, "base0": 0,
+                               "lastempty": False, "devfull": False, "blk": 8, "label": label + "-server-died", "net": True})
+                events.append({"e": "out", "k": "err", "code": 0})
+        finally:
+            drop_server(sb, srv)
+    return events
 
 
 def c16_interop(res):
@@ -621,6 +726,51 @@ def silent_peer_scenarios(tag, tmo_opts, default_timeout=False, single=False, cl
             if c is not None:
                 events += c.events
                 c.close()
+    finally:
+        drop_server(sb, srv)
+    return events
+
+
+def peer_error_scenarios(tag, single):
+    """A peer that sends ERROR in the middle of a transfer (C07): one download (after the first
+    window) and one upload (after the first block) against the real process.  The worker must
+    end at once: nothing more on the wire while its timeout would have fired, the end reported
+    within a second, and (clean-on-error) the partial upload removed.  Returns Trace_Transfer events."""
+    sb, srv = with_server(tag, shared=True, single=single, ow=True)
+    events = []
+    try:
+        opts = [("blksize", 8), ("timeout", 1)]
+        content = X.make_file(7, 8, 5)
+        open(os.path.join(sb.send, "err_dl.bin"), "wb").write(content)
+        d = X.Download(srv, tag + "-download", b"err_dl.bin", content, opts=opts + [("windowsize", 2)])
+        d.start()
+        if d.started:
+            d.absorb(d.recv_some(2, quiet=1.0))
+            d.send_input(("ack", d.expected - 1))
+            d.absorb(d.recv_some(2, quiet=1.0))
+            d.send_input(("err",))
+        u = X.Upload(srv, tag + "-upload", b"err_up.bin", 4, 5, opts=opts, target=os.path.join(sb.recv, "err_up.bin"))
+        u.start()
+        if u.started:
+            u.log(e="in", k="data", n=1, id=1, sz="full", dt=0)
+            u.sock.sendto(NET.data(1, X.payload(1, 8)), u.peer)
+            for p in u.recv_some(srv.flags["dup"] + 1, quiet=1.0):
+                if p["k"] == "ack":
+                    u.log(e="out", k="ack", n=p["n"], file=u.file_proj())
+            u.log(e="in", k="err", n=0, dt=0)
+            u.sock.sendto(NET.error(0, b"stop"), u.peer)
+        # whatever either worker still emits while its timeout (1 s) would have fired belongs in the trace
+        if d.started:
+            d.absorb(d.recv_some(4, quiet=1.6))
+            d.log(e="quiet")
+        if u.started:
+            for p in u.recv_some(2, quiet=0.3):
+                u.log(e="out", k=p["k"], n=p.get("n", 0), file=u.file_proj()) if p["k"] == "ack" else u.log(e="out", k=p["k"])
+            u.log(e="quiet")
+        X.server_outcomes(srv, [d, u], wait=0.5)
+        for c in (d, u):
+            events += c.events
+            c.close()
     finally:
         drop_server(sb, srv)
     return events
